@@ -500,7 +500,7 @@ int vh_main(int argc, char **argv, const vh_harness *h)
         fflush(vh_out);
         fprintf(stderr, "@@VH BEGIN %ld\n", i);
         vh_in_case = 1;
-        alarm((unsigned)(h->watchdog_s > 0 ? h->watchdog_s : 60));
+        { const char *ws = getenv("VH_WATCHDOG_SCALE"); int sc = ws ? atoi(ws) : 1; alarm((unsigned)((h->watchdog_s > 0 ? h->watchdog_s : 60) * (sc > 0 ? sc : 1))); }   /* valgrind stages scale the watchdog */
         h->run(i, &r);
         alarm(0);
         vh_in_case = 0;
